@@ -66,13 +66,19 @@ let () =
       let toks = split_nonempty ' ' (String.sub line (i + 1) (String.length line - i - 1)) in
       let specs = List.map spec_of_string (split_nonempty ',' header) in
       let words = List.map word_of_hex toks in
-      let total = List.fold_left (fun m w -> m + List.length w) 0 words in
-      let fuel = nat_of_int (2 * total + 2) in
       (match new_dawg words with
        | Panic -> print_endline "panic"
        | NoFuel -> print_endline "nofuel"
        | Ok None -> print_endline "new-error"
        | Ok (Some s) ->
+         (* the hypothesis of the theorems, decided by the extracted checker on this very
+            store: well-formed, language = the words; the fuel is the theorems' fuel *)
+         let depth = nat_of_int (1 + List.fold_left (fun m w -> max m (List.length w)) 0 words) in
+         (match check_wf depth s root with
+          | None -> print_endline "model-dawg-not-wellformed"
+          | Some t when tlang t <> words -> print_endline "model-dawg-language-differs"
+          | Some t ->
+         let fuel = search_fuel t in
          (match new_searchers specs with
           | Panic -> print_endline "panic"
           | NoFuel -> print_endline "nofuel"
@@ -89,6 +95,6 @@ let () =
                   let st xs = String.concat "|" (List.map proj_state xs) in
                   let sst xs = String.concat "|" (List.map strict_state xs) in
                   Printf.printf "s0=%s r1=%s s1=%s r2=%s s2=%s ## c0=%s c1=%s c2=%s\n"
-                    (st xs0) (str_solns r1) (st xs1) (str_solns r2) (st xs2) c0 (sst xs1) (sst xs2)))))
+                    (st xs0) (str_solns r1) (st xs1) (str_solns r2) (st xs2) c0 (sst xs1) (sst xs2))))))
     done
   with End_of_file -> ()
